@@ -294,9 +294,11 @@ def _call_subflow(new_state: State, flow_state: FlowState) -> Optional[FlowState
     # Add any new subflow to the new state
     new_state.flow_states.append(subflow_state)
 
-    # Check if we have a next step from the subflow
+    # Check if we have a next step from the subflow. If the subflow has called another
+    # subflow in the meantime, it is waiting for it and has nothing to propose.
     subflow_config = new_state.flow_configs[subflow_state.flow_id]
-    _record_next_step(new_state, subflow_state, subflow_config)
+    if subflow_state.status == FlowStatus.ACTIVE:
+        _record_next_step(new_state, subflow_state, subflow_config)
 
     return subflow_state
 
